@@ -220,11 +220,18 @@ def impure_methods(mod):
     la = list_attributes(mod.tree)
     direct = {}
     taints = {}
+    # a derived value cached in an attribute (`if self._k is None: self._k = ...`) is not a change of the state it is derived from;
+    # whether the cache is dropped when its inputs change is rule STALE (sa/memo.py)
+    from .memo import instance_memos
+    memo_attr = {}
+    for _c, holder, attr, _comp, _m, _s in instance_memos(mod):
+        memo_attr.setdefault(id(holder), set()).add(attr)
     for q, fn in mod.functions.items():
         t = Taint(fn, ('self',) if '.' in q else (), la)
         muts = t.run()
         taints[q] = t
-        direct[q] = [(n.lineno, d) for n, d in muts]
+        direct[q] = [(n.lineno, d) for n, d in muts
+                     if not (isinstance(n, ast.Assign) and any(isinstance(x, ast.Attribute) and x.attr in memo_attr.get(id(fn), ()) for x in n.targets))]
     by_name = {}
     for q in mod.functions:
         by_name.setdefault(q.split('.')[-1], []).append(q)
